@@ -620,6 +620,8 @@ fn e_frontend_get_config(class: usize) {
     let rdata: [u8; 4] = kani::any();
     // classes 4 / 5: the body claims the full window but the message carries only 2 / 0 payload bytes
     let natural = match class { 1 | 5 => 12, 4 => 12 + 2, _ => 12 + LEN };
+    // class 6: conformant header and body, but the stream ends 2 bytes into the 4-byte payload
+    let cut_short = class == 6;
     // SAFETY: ghost state
     unsafe {
         g::put_hdr(0, op, 0x5, natural as u32);
@@ -627,8 +629,8 @@ fn e_frontend_get_config(class: usize) {
         g::put32(16, rsize);
         g::put32(20, 1);
         g::put32(24, spec::rd32(&rdata, 0));
-        g::G.rx_len = 12 + natural;
-        g::G.rx_closed = false; // the backend stays connected after its reply
+        g::G.rx_len = if cut_short { 12 + 12 + 2 } else { 12 + natural };
+        g::G.rx_closed = cut_short; // otherwise the backend stays connected after its reply
         g::G.rx_nfds = 0;
     }
     let r = fm.get_config(off, LEN as u32, flags, &data[..]);
@@ -948,9 +950,11 @@ e_fe_cfg!(e_fe_get_config_reply, 0);
 e_fe_cfg!(e_fe_get_config_failure, 1);
 // @harness props=C01,C03,C06,C07 tier=thorough reach=off timeout=500 bound="Frontend::get_config(offset 0x10, 4 bytes, WRITABLE): reply describing another offset; request/reply payload bytes and negotiation words symbolic" stubs="vmm-sys-util raw_recvmsg/raw_sendmsg (ghost stream socket), libc::close + OwnedFd::drop (ghost descriptor table), handle_alloc_error (assume false)"
 e_fe_cfg!(e_fe_get_config_other_window, 2);
-// @harness props=C01,C03,C06,C07 tier=quick reach=off timeout=500 bound="Frontend::get_config(offset 0x10, 4 bytes, WRITABLE): reply whose body claims 4 bytes but whose header size / wire carry only 2 payload bytes; request/reply payload bytes and negotiation words symbolic" stubs="vmm-sys-util raw_recvmsg/raw_sendmsg (ghost stream socket), libc::close + OwnedFd::drop (ghost descriptor table), handle_alloc_error (assume false)"
+// @harness props=C01,C03,C06,C07,C08 tier=quick reach=off timeout=500 bound="Frontend::get_config(offset 0x10, 4 bytes, WRITABLE): conformant header and body, the stream ends 2 bytes into the 4-byte payload (peer closed); request/reply payload bytes and negotiation words symbolic" stubs="vmm-sys-util raw_recvmsg/raw_sendmsg (ghost stream socket), libc::close + OwnedFd::drop (ghost descriptor table), handle_alloc_error (assume false)"
+e_fe_cfg!(e_fe_get_config_payload_cut_by_eof, 6);
+// @harness props=C01,C03,C06,C07,C08 tier=quick reach=off timeout=500 bound="Frontend::get_config(offset 0x10, 4 bytes, WRITABLE): reply whose body claims 4 bytes but whose header size / wire carry only 2 payload bytes; request/reply payload bytes and negotiation words symbolic" stubs="vmm-sys-util raw_recvmsg/raw_sendmsg (ghost stream socket), libc::close + OwnedFd::drop (ghost descriptor table), handle_alloc_error (assume false)"
 e_fe_cfg!(e_fe_get_config_short_payload, 4);
-// @harness props=C01,C03,C06,C07 tier=thorough reach=off timeout=500 bound="Frontend::get_config(offset 0x10, 4 bytes, WRITABLE): reply whose body claims 4 bytes but which carries no payload at all; request/reply payload bytes and negotiation words symbolic" stubs="vmm-sys-util raw_recvmsg/raw_sendmsg (ghost stream socket), libc::close + OwnedFd::drop (ghost descriptor table), handle_alloc_error (assume false)"
+// @harness props=C01,C03,C06,C07,C08 tier=thorough reach=off timeout=500 bound="Frontend::get_config(offset 0x10, 4 bytes, WRITABLE): reply whose body claims 4 bytes but which carries no payload at all; request/reply payload bytes and negotiation words symbolic" stubs="vmm-sys-util raw_recvmsg/raw_sendmsg (ghost stream socket), libc::close + OwnedFd::drop (ghost descriptor table), handle_alloc_error (assume false)"
 e_fe_cfg!(e_fe_get_config_no_payload, 5);
 // @harness props=C01,C03,C06,C07 tier=thorough reach=off timeout=500 bound="Frontend::get_config(offset 0x10, 4 bytes, WRITABLE): reply whose config size field is 3; request/reply payload bytes and negotiation words symbolic" stubs="vmm-sys-util raw_recvmsg/raw_sendmsg (ghost stream socket), libc::close + OwnedFd::drop (ghost descriptor table), handle_alloc_error (assume false)"
 e_fe_cfg!(e_fe_get_config_short_size, 3);
